@@ -103,6 +103,20 @@ def _def_hvf(ap):
     return z3.And(z3.Implies(hi <= lo, ap == 0), z3.Implies(hi > lo, ap == dd[lo] + dg[lo] * hvf(dg, dd, lo + 1, hi)))
 
 
+# numpy's global generator as an abstract state machine (C18): seeding fixes the state, every shuffle maps (state, row) to a row and advances
+RNG = z3.DeclareSort("RngState")
+rng_seeded = z3.Function("rng_seeded", I, RNG)
+rng_next = z3.Function("rng_next", RNG, RNG)
+rng_shuffle = z3.Function("rng_shuffle4", RNG, I, I, I, I, A)  # the row produced by shuffling the 4-entry row (e0, e1, e2, e3) in this state
+rng_at = z3.Function("rng_at", I, I, RNG)                    # rng_at(seed, i) = state after seeding with seed and i shuffles
+
+
+def _def_rng_at(ap):
+    seed, i = ap.children()
+    return z3.And(z3.Implies(i <= 0, ap == rng_seeded(seed)), z3.Implies(i > 0, ap == rng_next(rng_at(seed, i - 1))))
+
+
+RECURSIVE[rng_at.name()] = (rng_at, _def_rng_at)
 RECURSIVE[walkv.name()] = (walkv, _def_walkv)
 RECURSIVE[wtf.name()] = (wtf, _def_wtf)
 RECURSIVE[lvf.name()] = (lvf, _def_lvf)
